@@ -15,13 +15,14 @@ scratch directory; for `params` (which includes `locals`) and `rettemp` the repo
   rettemp    `return E`  ->  `result_rt = E; return result_rt`
   elsewrap   `if c: ...return` + rest  ->  `if c: ...return else: rest`
   andsplit   `if a and b: X`  ->  `if a: if b: X`
+  keywordise positional arguments of calls to module-level repo functions (unique name, called by bare name) passed by keyword
 """
 from __future__ import annotations
 
 import ast
 from pathlib import Path
 
-MODES = ("unparse", "locals", "params", "ifswap", "rettemp", "elsewrap", "andsplit")
+MODES = ("unparse", "locals", "params", "ifswap", "rettemp", "elsewrap", "andsplit", "keywordise")
 SUFFIX = "_lv"
 HOOK_PREFIXES = ("visit_", "leave_", "on_visit", "on_leave")
 
@@ -239,6 +240,29 @@ def transform(text: str, mode: str, kw: set[str] | None = None, stats: dict | No
                             break
                     if changed:
                         break
+    elif mode == "keywordise":
+        sigs = kw or {}
+        local_defs = {n.name for n in ast.walk(tree) if isinstance(n, (ast.FunctionDef, ast.AsyncFunctionDef, ast.ClassDef))}
+        imported = {}
+        for n in ast.walk(tree):
+            if isinstance(n, ast.ImportFrom):
+                for al in n.names:
+                    imported[al.asname or al.name] = al.name
+        top_level = {n.name for n in tree.body if isinstance(n, (ast.FunctionDef, ast.AsyncFunctionDef))}
+        shadow = {n.id for n in ast.walk(tree) if isinstance(n, ast.Name) and isinstance(n.ctx, ast.Store)} | {a.arg for a in ast.walk(tree) if isinstance(a, ast.arg)}
+        for c in ast.walk(tree):
+            if not (isinstance(c, ast.Call) and isinstance(c.func, ast.Name) and c.args):
+                continue
+            nm = c.func.id
+            real = nm if nm in top_level else imported.get(nm)
+            if real is None or real not in sigs or nm in shadow or (nm in local_defs and nm not in top_level):
+                continue
+            ps = sigs[real]
+            if len(c.args) > len(ps) or any(isinstance(a, ast.Starred) for a in c.args) or any(k.arg is None for k in c.keywords):
+                continue
+            c.keywords = [ast.keyword(arg=ps[i], value=a) for i, a in enumerate(c.args)] + c.keywords
+            c.args = []
+            count += 1
     elif mode != "unparse":
         raise ValueError(mode)
     ast.fix_missing_locations(tree)
@@ -269,6 +293,23 @@ def tree_overlay(repo: Path, src_subdir: str, mode: str, base_overlay: dict[str,
                     except (OSError, UnicodeDecodeError):
                         pass
         kw = keyword_names(list(texts.values()) + extra)
+    if mode == "keywordise":
+        # signatures of module-level functions whose name is defined exactly once in the whole tree (methods and nested functions count as
+        # definitions of the name too), without *args / positional-only parameters / decorators
+        seen: dict[str, int] = {}
+        sig: dict[str, list[str]] = {}
+        for text in texts.values():
+            try:
+                t = ast.parse(text)
+            except SyntaxError:
+                continue
+            for n in ast.walk(t):
+                if isinstance(n, (ast.FunctionDef, ast.AsyncFunctionDef, ast.ClassDef)):
+                    seen[n.name] = seen.get(n.name, 0) + 1
+            for n in t.body:
+                if isinstance(n, (ast.FunctionDef, ast.AsyncFunctionDef)) and not n.decorator_list and not n.args.vararg and not n.args.posonlyargs:
+                    sig[n.name] = [a.arg for a in n.args.args]
+        kw = {k: v for k, v in sig.items() if seen.get(k) == 1}
     stats = {"files": 0, "rewrites": 0}
     out = {}
     for rel, text in texts.items():
